@@ -18,7 +18,7 @@ PROPS = {
                    "Props.GenTie.CoinbaseRule": ["get_block_subsidy", "validate_sashimi_range", "coinbase_in_state_ok"]},
         assumptions=["Python int arithmetic is exact (unbounded)"]),
     "C01": dict(
-        lean_core=["Props.C01"], lean_code=[], gen_funcs=[], harness="c01",
+        lean_core=["Props.C01"], lean_code=["Props.GenTie.SpendRule"], gen_funcs=["spend_in_state_ok"], harness="c01",
         assumptions=["signature validity is an oracle in the driver (each listed triple is checked with python-ecdsa by the harness)",
                      "scrypt replaced by sha256(password+salt) in harness and driver",
                      "full validation = add_block above the checkpoint horizon (horizon lowered to -1 or 2 in the harness)"]),
